@@ -555,7 +555,8 @@ impl FixtureDatabase {
         }
 
         // Check if this is a test function
-        let is_test = func_name.starts_with("test_");
+        // (a fixture function named test_* already had its parameters recorded above)
+        let is_test = func_name.starts_with("test_") && fixture_decorator.is_none();
 
         if is_test {
             debug!("Found test function: {}", func_name);
